@@ -729,6 +729,19 @@ impl FinishedSession {
             return Ok(Some(self));
         }
 
+        // Reject a stale changeset before anything is applied. The exclusive access guard held
+        // above keeps the root from changing until we are done.
+        {
+            let shared = nomt.shared.lock();
+            if shared.root != self.prev_root {
+                anyhow::bail!(
+                    "Changeset no longer valid (expected previous root {:?}, got {:?})",
+                    self.prev_root,
+                    shared.root
+                );
+            }
+        }
+
         if let Some(rollback_delta) = self.rollback_delta {
             // UNWRAP: if rollback_delta is `Some`, then rollback must be also `Some`.
             let rollback = nomt.store.rollback().unwrap();
@@ -740,13 +753,6 @@ impl FinishedSession {
 
         {
             let mut shared = nomt.shared.lock();
-            if shared.root != self.prev_root {
-                anyhow::bail!(
-                    "Changeset no longer valid (expected previous root {:?}, got {:?})",
-                    self.prev_root,
-                    shared.root
-                );
-            }
             shared.root = Root(self.merkle_output.root);
             shared.last_commit_marker = None;
         }
